@@ -1155,6 +1155,16 @@ SideSymmetric = b"S"''', '''SideA, SideB, SideSymmetric = (bytes([c]) for c in b
       base="seeded_neutral/N20", tests="fail", note="shared offset helper called with +pw for the unblinding"),
     B("n24-double-uses-sum-for-G", ["C12"], [(ED, "    y2_minus_x2 = (y_squared - x_squared) % Q           # G\n", "    y2_minus_x2 = (y_squared + x_squared) % Q           # G\n")],
       base="seeded_neutral/N24", tests="fail", note="descriptive-name doubling formula with a sign error"),
+    # ---- functools.cached_property for the per-instance parameter fingerprint
+    N("p-cached-property-fingerprint", [(SP, "import os, json\n", "import os, json, functools\n"),
+                                        (SP, """    def hash_params(self):
+        # We can't really reconstruct the group from static data, but we'll""", """    def hash_params(self):
+        return self._hashed_params
+
+    @functools.cached_property
+    def _hashed_params(self):
+        # We can't really reconstruct the group from static data, but we'll""")],
+      note="the asymmetric fingerprint is computed once per instance (kept in the instance's own dictionary)"),
     # ---- match statement (Python 3.10) in the side check
     N("p-match-statement-extract-message", [(SP, _MATCH_OLD, _MATCH_NEW)], note="structural pattern matching on (own side, peer side)"),
     B("p-match-statement-own-side-accepted", ["C06"], [(SP, _MATCH_OLD, _MATCH_NEW.replace("""            case (b"A", b"A"):
